@@ -548,7 +548,9 @@ impl<'a> Run<'a> {
         self.w.chans[ci].spec = spec.clone();
         self.w.chans[ci].setup = setup;
         self.w.chans[ci].cp = cp;
-        let f = open_funded(&mut self.w, &spec, &o.fund);
+        // channels with an even dbid get a permanent id different from their initial one
+        let perm = spec.dbid % 2 == 0;
+        let f = crate::chainpool::open_funded_perm(&mut self.w, &spec, &o.fund, perm);
         let mut contents = vec![f.content0.clone()];
         let offered: Vec<Htlc> = if outbound { o.htlcs.iter().enumerate().map(|(j, a)| Htlc { h: (j % 2) as u8, sat: AMTS[*a as usize % 3], cltv: 1_000 + j as u32 }).collect() } else { vec![] };
         if !offered.is_empty() || !outbound {
